@@ -48,6 +48,9 @@ class Outcome(object):
         self.value = value
         self.kind = kind        # return | error | raise | fallthrough
         self.node = node
+        self.divs = []
+        self.logs = []
+        self.env = {}
 
     def is_nan(self):
         return isinstance(self.value, Rat) and self.value.key() == "$nan"
@@ -74,6 +77,8 @@ class Evaluator(object):
         self.len_syms = len_syms or {}
         self.max_paths = max_paths
         self.outcomes = []
+        self.loop_mode = None     # "body_once": bind the loop variable symbolically, run the body once
+        self.loops = []
 
     # -- expressions ---------------------------------------------------------------------
     def ev(self, node, path):
@@ -114,7 +119,7 @@ class Evaluator(object):
             if r == "numpy.pi":
                 return Rat.sym("pi")
             head = d.split(".")[0]
-            if head not in path.env:
+            if head not in path.env or (isinstance(path.env[head], Rat) and path.env[head].key() == "$" + head):
                 return Rat.sym(d)
         base = self.ev(node.value, path)
         return form.apply("attr:" + node.attr, [base]) if isinstance(base, Rat) else Rat.sym(norm(node))
@@ -169,6 +174,19 @@ class Evaluator(object):
         parts = []
         for op, comp in zip(node.ops, node.comparators):
             right = self.ev(comp, path)
+            if isinstance(op, (ast.In, ast.NotIn)) and isinstance(right, list) and isinstance(left, Rat):
+                la = left.as_atom()
+                if la is not None and la.func.startswith("str:") and all(
+                        isinstance(r, Rat) and r.as_atom() is not None and r.as_atom().func.startswith("str:")
+                        for r in right):
+                    hit = any(r.as_atom().func == la.func for r in right)
+                    parts.append(Rat.const(1 if hit == isinstance(op, ast.In) else 0))
+                    left = right
+                    continue
+                parts.append(form.apply("in" if isinstance(op, ast.In) else "notin",
+                                        [left, tuple(r for r in right if isinstance(r, Rat))]))
+                left = right
+                continue
             if not isinstance(left, Rat) or not isinstance(right, Rat):
                 parts.append(form.apply("expr:" + norm(node), []))
             else:
@@ -344,6 +362,7 @@ class Evaluator(object):
             o = self.outcomes[-1]
             o.divs = list(path.divs)
             o.logs = list(path.logs)
+            o.env = path.env
             return []
         if isinstance(st, ast.If):
             c = self.ev(st.test, path)
@@ -364,6 +383,12 @@ class Evaluator(object):
             return []
         if isinstance(st, ast.With):
             return self.exec_block(st.body, [path])
+        if isinstance(st, ast.For) and self.loop_mode == "body_once":
+            it = self.ev(st.iter, path)
+            self.loops.append({"node": st, "iter": it, "path": path})
+            self.assign(st.target, _loop_value(st, it), path)
+            live = self.exec_block(st.body, [path])
+            return live
         if isinstance(st, (ast.For, ast.While)):
             raise Undecided("loop at line %d" % st.lineno)
         if isinstance(st, ast.Try):
@@ -371,6 +396,11 @@ class Evaluator(object):
         if isinstance(st, (ast.FunctionDef, ast.ClassDef)):
             return [path]
         raise Undecided("statement %s" % type(st).__name__)
+
+    def run_stmts(self, stmts, env=None):
+        """Execute a statement list from a given environment; returns the live paths."""
+        self.outcomes = []
+        return self.exec_block(stmts, [Path(dict(env or {}), [])])
 
     def run(self, fdef, env=None, skip_self=True):
         """Evaluate a function definition; parameters become symbols.  Returns outcomes."""
@@ -386,8 +416,27 @@ class Evaluator(object):
             o = Outcome(p.conds, Rat.sym("None"), "fallthrough", fdef)
             o.divs = list(p.divs)
             o.logs = list(p.logs)
+            o.env = p.env
             self.outcomes.append(o)
         return self.outcomes
+
+
+def _loop_value(st, it):
+    """Symbolic value of the loop variable(s) for one generic iteration."""
+    def mk(t):
+        if isinstance(t, ast.Name):
+            return Rat.sym(t.id)
+        if isinstance(t, (ast.Tuple, ast.List)):
+            return [mk(e) for e in t.elts]
+        return Rat.sym(norm(t))
+    at = it.as_atom() if isinstance(it, Rat) else None
+    if at is not None and at.func == "call:enumerate" and isinstance(st.target, ast.Tuple) and len(st.target.elts) == 2 \
+            and isinstance(at.args[0], Rat):
+        idx = mk(st.target.elts[0])
+        return [idx, form.apply("getitem", [at.args[0], idx])]
+    if at is not None and at.func != "call:range" and isinstance(st.target, ast.Name):
+        return form.apply("elem", [it])
+    return mk(st.target)
 
 
 def _as_load(t):
